@@ -194,6 +194,9 @@ class IDNACodec:
         if self.is_idna(label):
             try:
                 slabel = label[4:].decode("punycode")
+                # The punycode codec happily produces lone surrogates, which
+                # are not text that can be written anywhere.
+                slabel.encode("utf-8")
                 return _escapify(slabel)
             except Exception as e:
                 raise IDNAException(idna_exception=e)
